@@ -68,11 +68,12 @@ PROPS = {
     'C07': dict(
         I=['c'],
         K=dict(quick=['c07_frame_n7_k0', 'c07_frame_n7_k2', 'c07_frame_n4_rd'], thorough=['c07_frame_n8_k0', 'c07_frame_n8_k2', 'c07_frame_n4_rd']),
-        S=dict(quick=['s_writes_addversion', 's_reopen'], thorough=['s_writes_addversion', 's_reopen']),
+        S=dict(quick=['s_writes_addversion', 's_reads_byparent', 's_reopen'], thorough=['s_writes_addversion', 's_reads_byparent', 's_reopen']),
         bounds='every REACH-shaped state with chain <= 7 (8), any later request of either client, every earlier version re-read',
     ),
     'C08': dict(
         K=dict(quick=['c08_table_n7'], thorough=['c08_table_n8']),
+        S=dict(quick=['s_writes_addversion', 's_reads_byparent'], thorough=['s_writes_addversion', 's_reads_byparent']),
         bounds='every REACH-shaped state with chain <= 7 (8), arbitrary 128-bit p, known and unknown clients; AddVersion half = the real add_version on the same state',
     ),
     'C09': dict(
